@@ -6,16 +6,21 @@ C19 rig (consensus services over a HARNESS network) does not contain.
 Model: spec/consnet
   ConsNet.tla        abstract judge: Delivery / Relay / ProposalTxs / BlockOut / Agreement / Acceptable / ServiceStart predicates
   ConsNetImpl.tla    code-shaped model of extpool add + relay decision, handleInvCmd / handleGetDataCmd, RequestTx batching by
-                     MaxHashesCount, txIn / callback list flow control, service start (named deviations refuted by TLC)
-  ConsNetSim.tla     behaviour generator (who sends which payload when, which peer has which transactions, who is mute)
+                     MaxHashesCount, txIn / callback list flow control, service start; 5 named deviations refuted by TLC, and the
+                     switch SplitLookup = the tree as it is (look-up and request are two critical sections): TLC shows the unanswered
+                     proposal the stronger reading excludes - MODEL-level documentation, on the real code it is drift (see below)
+  MCConsNet.tla      hand-picked universes;  ConsNetSim.tla  generator + the family of ALL universes (exhaustive MC_all*.cfg)
   ConsNetTrace.tla   trace judge
-Real code: harness/c19net - REAL started network.Server(s) with the REAL consensus.Service wired in as cli/server mkConsensus does,
-fake peers holding the other validators' keys over real TCP loopback, virtual dBFT time.
+Real code: harness/c19net - REAL started network.Server(s) with the REAL consensus.Service wired in as cli/server mkConsensus does
+(observation taps around the callbacks), fake peers holding the other validators' keys over real TCP loopback (really signed payloads,
+real transactions), meshes of 4 real servers, virtual dBFT time.
 
 Call from the registered check of C19:   ext = load('c19_net'); ext.run_ext(ctx)
 Violations carry "part": "consnet", "kind": Delivery | Relay | InvalidAccepted | ProposalTxs | BlockOut | Agreement | Acceptable |
 ServiceStart | Stalled | panic and "pred" = the detailed predicate.  Predicates named "i:..." are informational (drift), "x:..." mean
-the harness contradicts itself (inconclusive)."""
+the harness contradicts itself (inconclusive).  By the lead's reading of the statement a missing answer to ONE proposal is a delay,
+not a violation: judged is that every height is decided within 3 views when all non-silent validators are honest and serve the named
+transactions (Stalled:undecided), and that nothing unverified is ever vouched for (ProposalTxs:accepted-*)."""
 import json
 import os
 import random
